@@ -1,7 +1,12 @@
 prop("C29",
      theorems=["NeoFS.Handlers.checker_sound", "NeoFS.Handlers.post_sound", "NeoFS.Handlers.get_runEv", "NeoFS.Handlers.checker_sound_view",
                "NeoFS.C29.all_handlers_checked",
-               "NeoFS.C29.effects_follow_checks", "NeoFS.C29.denied_signature_blocks_effects", "NeoFS.C29.put_applies_sticky_bit"],
+               "NeoFS.C29.effects_follow_checks", "NeoFS.C29.denied_signature_blocks_effects", "NeoFS.C29.put_applies_sticky_bit",
+               "NeoFS.C29.skip_only_without_header", "NeoFS.C29.wrong_header_is_refused", "NeoFS.C29.missing_header_is_refused",
+               "NeoFS.C29.identity_is_authenticated", "NeoFS.C29.header_identity_needs_valid_header",
+               "NeoFS.C29.relay_data_after_good_check", "NeoFS.C29.relay_no_data_before_check", "NeoFS.C29.relay_denied_sends_nothing",
+               "NeoFS.C29.local_data_after_good_check", "NeoFS.C29.local_denied_sends_nothing"],
+     lean_modules=["NeoFS.Props.C29", "NeoFS.Props.C29Auth"],
      engines=[dict(name="rpc", quick=1, thorough=1)],
      claim="Programs part: harness/extract type-checks pkg/services/object from the working tree on every run and abstracts EVERY handler of the "
            "object service (all methods of protoobject.ObjectServiceServer plus every exported server method with the same parameter list, e.g. "
@@ -15,23 +20,47 @@ prop("C29",
            "code does); Replicate stores only after the object signature and both container-node lookups succeeded; a denied signature is "
            "followed by nothing but the answer. Inputs part: the real Server is built over recording fakes and every handler is called with "
            "valid, unsigned, wrongly signed, refused-token, unclassifiable, basic-ACL-denied, sticky-denied, eACL-denied and maintenance requests; "
-           "oracle: no fake touched + the right status class; the refusal expected by the model is computed from the regenerated skeleton.",
+           "oracle: no fake touched + the right status class; the refusal expected by the model is computed from the regenerated skeleton. "
+           "Who the request is authenticated as (op auth): Model/ReqAuth.lean models internal/crypto.requestNeedsSignature and "
+           "acl/v2.getRequestCredentials; proved for EVERY request (any TLS state, TTL, verification header, token issuer): the signature "
+           "chain is skipped only for a header-less TTL=1 request of a TLS peer, a header that does not verify is always refused, and the "
+           "identity handed to access control made a header that verifies / is the TLS key of such a request / issued the token of a request "
+           "whose header verifies (identity_is_authenticated). Tie: every handler is called over the REAL acl/v2.Service with the full table "
+           "TLS peer (none/owner/stranger) x TTL (1,2) x header (absent, correct, damaged, forged: names a key over random signatures) x named key "
+           "(container owner, stranger) on a private container; observation = status / the key and role the ACL stage was asked about / served. "
+           "Header-time eACL re-check of GET (op relay): Model/GetRelay.lean models the relay (getProxyContext: onceHdr, suppressInit, "
+           "headWas, chunkBoundsToSend, validateEOF, node-after-node retry) and the storage header interceptor; proved for EVERY list of remote "
+           "nodes and EVERY message sequence each answers: when the request-time evaluation was inconclusive every message to the client "
+           "follows an evaluation of the eACL against the header that did not deny (relay_no_data_before_check), and a denial sends nothing "
+           "(relay_denied_sends_nothing), payload_only or not. Tie: the REAL Server.Get over the REAL getsvc.Service with a local storage engine "
+           "and a remote container node (gRPC server on an in-memory listener answering heading part + chunks, also chunk-first, doubled heading "
+           "part, truncated payload), for ordinary and payload_only GETs, object local or remote, request-time verdict pass/inconclusive/deny, "
+           "header verdict allow/deny; the client stream is decoded message by message.",
      note="Proved: soundness of the checker for every term/policy/run; acceptance of every generated handler term. Trusted: the translator "
           "harness/extract/skel.go + its tag table rules.go (which callee is a check/effect/neutral; how branch conditions refine check results; "
           "closures and function values run where created and their checks are not credited to the handler; checks made inside callbacks handed "
-          "to getsvc/putsvc - the header-time eACL re-check of GET - are exercised only by C28's scope, not here; regions that touch no check "
-          "are summarised to 'their effects in any order'). Assumed: putsvc.Streamer refuses SendChunk/Close before a successful Init "
+          "to getsvc/putsvc are not part of the skeleton - the header-time eACL re-check of GET is covered by Model/GetRelay.lean and op relay "
+          "(relay path and storage interceptor; the re-check of assembled split/EC objects, getStream.ValidateHeader, and of HEAD/RANGE are "
+          "not driven); regions that touch no check are summarised to 'their effects in any order'). Assumed: putsvc.Streamer refuses SendChunk/Close before a successful Init "
           "(exercised: scenario chunkfirst); Handlers.Put only allocates the stream (read). Not modelled: the contents of the checks themselves "
           "(C28, C30, C33), payload bytes vs header-time eACL inside pkg/services/object/get. States are packed into naturals for kernel speed; "
           "Lemmas/Handlers.lean proves the packing is a faithful finite map, so the theorems are stated over 'latest outcome of every check in the "
           "history before the effect' (lastOutcomes).",
-     rule="every handler found by reflection on the server x 15 scenarios (ok, eACL-not-matched, corrupted signature, missing verification header, "
+     rule="(1) every handler found by reflection on the server x 15 scenarios (ok, eACL-not-matched, corrupted signature, missing verification header, "
           "maintenance, refused token, malformed token, unclassifiable sender, container not found, basic ACL, eACL, sticky bit, skip-ACL, chunk "
           "before init; Replicate: bad object signature, container lookup failures) x 5 request variants (ttl, raw flag, session v2 / v1 / bearer "
-          "token, tombstone PUT, extra chunk); non-trivial = request refused with zero recorded effects; distinct by op line",
+          "token, tombstone PUT, extra chunk); non-trivial = request refused with zero recorded effects; distinct by op line; "
+          "(2) op auth: every client handler x 3 TLS states x 2 TTLs x 4 header kinds x 2 named keys, non-trivial = unauthenticated request refused "
+          "with zero effects; (3) op relay: source x payload_only x request-time verdict x header verdict x payload shapes + malformed remote "
+          "streams, non-trivial = header-time denial with nothing sent",
      trusted=["harness/extract/skel.go and rules.go (control-skeleton translator and tag table) are in the trusted base of this property",
-              "recording fakes of Handlers/FSChain/Storage/ACLChecker/ACLInfoExtractor/ClientConstructor in harness/eng_rpc.go"],
+              "recording fakes of Handlers/FSChain/Storage/ACLChecker/ACLInfoExtractor/ClientConstructor in harness/eng_rpc.go",
+              "op auth: ECDSA and the SDK's request signing/verification; the fake ACL checker deciding by the container's basic ACL",
+              "op relay: the fake eACL checker (decides by the header attribute Class), the in-memory gRPC remote node, grpc-go"],
      assumptions=["putsvc.Streamer.SendChunk/Close refuse a stream that was not initialised (exercised by scenario chunkfirst)",
+                  "ideal signature scheme in Model/ReqAuth.lean (a header either verifies for the key it names or not); session token validity is C30's",
+                  "the SDK eACL validator's verdict is final once the object header is available (so 'no rule matched' is a request-time answer only)",
+                  "getsvc stops asking nodes after an API-status error of the transport callback and goes on after any other error (processNode)",
                   "error constructors (errors.New, fmt.Errorf, status.Error, newBadRequestError) and package-level sentinel errors are non-nil"])
 ENGINES.append({"name": "rpc", "path": "harness/eng_rpc.go", "serves_properties": ["C29", "C45", "C32"],
                 "kind_free_text": "builds the real object service Server and both control service Servers over recording fakes, drives every "
